@@ -68,12 +68,33 @@ fn one(sub: &str, recs: &[Vec<u8>], empty_file: bool, k: usize, w: usize) -> Opt
     }
 }
 
+/// coverage with a counting input in another container format than the records (FASTA records with an empty one, FASTQ
+/// counting input): no panic, one row per record
+fn cov_alt_fastq_case(threads: usize) -> Option<Vec<(String, String)>> {
+    let recs = vec![b"ACGTACGTACGG".to_vec(), b"".to_vec(), b"GGGGGGGACGTACG".to_vec()];
+    let alt = vec![b"ACGTACGTACGTAAA".to_vec()];
+    let why = match crate::p_cov::run_cov_alt_f(&recs, Some(&alt), true, 7, 2, 3, true, threads, 6.0) {
+        Err(e) => e,
+        Ok(t) => { let l = t.matches('\n').count(); if l == recs.len() { String::new() } else { format!("{} rows for {} records", l, recs.len()) } }
+    };
+    if why.is_empty() { None } else {
+        Some(vec![("sub".into(), "cov-alt-fastq".into()), ("records".into(), "ACGTACGTACGG||GGGGGGGACGTACG (FASTA)".into()), ("alt".into(), "ACGTACGTACGTAAA (FASTQ)".into()), ("threads".into(), threads.to_string()), ("why".into(), why)])
+    }
+}
+
 pub fn c16(o: &Opts) -> Outcome {
     let mut cases = 0u64;
     if let Some(inp) = &o.input {
+        if inp["sub"] == "cov-alt-fastq" { return Outcome { cases: 1, witness: cov_alt_fastq_case(inp["threads"].parse().unwrap()) }; }
         let recs: Vec<Vec<u8>> = if inp["records"].is_empty() { vec![vec![]] } else { inp["records"].split('|').map(unshow).collect() };
         if let Some(t) = inp.get("threads") { std::env::set_var("VERIF_THREADS", t); }
         return Outcome { cases: 1, witness: one(&inp["sub"], &recs, inp["empty_file"] == "true", inp["k"].parse().unwrap(), inp["w"].parse().unwrap()) };
+    }
+    if in_kind().is_empty() {
+        for threads in [1usize, 4] {
+            cases += 1;
+            if let Some(w) = cov_alt_fastq_case(threads) { return Outcome { cases, witness: Some(w) }; }
+        }
     }
     let sets: Vec<(Vec<Vec<u8>>, bool)> = vec![
         (vec![], true),
